@@ -5,8 +5,11 @@
 set -u
 export GOFLAGS=-mod=mod GOPROXY=off GOSUMDB=off GOTOOLCHAIN=local
 cd /verif
-for name in "$@"; do
+for arg in "$@"; do
+  # <name> runs the check of the property the change was written for; <name>:<ID> runs another property's check
+  name=${arg%%:*}
   id=${name%%-*}
+  case "$arg" in *:*) id=${arg##*:};; esac
   wt=/tmp/seed/sweep-$name
   git -C /repo worktree remove --force $wt >/dev/null 2>&1
   git -C /repo worktree add --detach $wt HEAD >/dev/null 2>&1 || { echo "$name: worktree failed"; continue; }
